@@ -164,6 +164,7 @@ type converter struct {
 	unwrapCache map[core.ZodSchema]core.ZodSchema // cache for unwrapSchema results
 	root        core.ZodSchema                    // the schema ToJSONSchema was called with ("#")
 	lazyDefs    map[core.ZodSchema]*lib.Schema    // $defs entries promised to Lazy references, filled when the target's conversion returns
+	converting  map[core.ZodSchema]bool           // schemas whose convert call has not returned yet
 }
 
 func newConverter(opts Options) *converter {
@@ -176,6 +177,7 @@ func newConverter(opts Options) *converter {
 		idCache:     make(map[core.ZodSchema]string),
 		unwrapCache: make(map[core.ZodSchema]core.ZodSchema),
 		lazyDefs:    make(map[core.ZodSchema]*lib.Schema),
+		converting:  make(map[core.ZodSchema]bool),
 	}
 }
 
@@ -237,12 +239,21 @@ func (c *converter) convert(schema core.ZodSchema) (*lib.Schema, error) {
 				return &lib.Schema{Ref: "#/$defs/" + name}, nil
 			}
 		}
+		// The conversion of this schema is still running: this is a cycle (a Lazy that resolves,
+		// through its inner schema, to itself). Its placeholder is still empty and will be filled
+		// with a schema that contains this very position, so handing it out would make the
+		// document a pointer cycle that cannot be serialised: answer with a reference.
+		if c.converting[schema] {
+			return c.lazyRef(schema), nil
+		}
 		return s, nil
 	}
 
 	// Insert placeholder to break potential cycles early
 	placeholder := &lib.Schema{}
 	c.seen[schema] = placeholder
+	c.converting[schema] = true
+	defer delete(c.converting, schema)
 
 	internals := schema.Internals()
 
